@@ -132,7 +132,7 @@ CHECKS = {
          "dtn://n/a-5 (1,2) vs fragment dtn://n/a (5,1) offset 2), C13_fragment_collides / C13_known_none_name_narrow (the classes are tight), "
          "C13_refbundle (a status report about a non-fragment bundle prints the bundle's ID), C13_received_report_refers (a normal-form status "
          "report about a bundle - fragment or not - that went over the wire prints, after decoding, exactly that bundle's ID: composition with the "
-         "C12 record round trip); K-id channel: SRREF (reports decoded from reference encodings), adversarial re-splittings of one ID "
+         "C12 record round trip); K-id channel: SRREF (reports decoded from reference encodings) and SRREFE (the same after one pass through the crate's record encoder), adversarial re-splittings of one ID "
          "text, single-field perturbations inside/outside the identity, random pairs, status-report references; failing pairs are classified by "
          "the same decidable predicate (known findings id-dash-source, id-none-name).",
          "Display for u64/EndpointID and format! are modelled; new_status_report on a fragment is unimplemented!() in the crate (not judged).",
